@@ -149,11 +149,36 @@ func knownBoolAt(blk *ssa.BasicBlock, v ssa.Value) (val bool, known bool) {
 }
 
 func summarizeProcess(fn *ssa.Function, want *types.Signature) *lpSummary {
+	return summarizeProcessWith(fn, want, lineParamOf(fn), 0)
+}
+
+// summarizeProcessWith: lp is the parameter that carries the input line (the Process method's
+// own, or the parameter of a helper the method's result is delegated to).
+func summarizeProcessWith(fn *ssa.Function, want *types.Signature, lp *ssa.Parameter, depth int) *lpSummary {
 	s := &lpSummary{Fn: fn}
-	lp := lineParamOf(fn)
 	for _, ret := range returnsOf(fn) {
 		if len(ret.Results) != 2 {
 			continue
+		}
+		// `return helper(.., line, ..)`: the helper's returns are this function's returns
+		if c0, i0, ok0 := extractOf(ret.Results[0]); ok0 && i0 == 0 && depth < 3 && lp != nil {
+			if c1, i1, ok1 := extractOf(ret.Results[1]); ok1 && i1 == 1 && c1 == c0 && !isProcessCall(c0, want) {
+				if callee := staticCallee(c0); callee != nil && callee.Blocks != nil && callee != fn && pkgOfFunc(callee) == pkgOfFunc(fn) {
+					var hp *ssa.Parameter
+					for i, a := range c0.Call.Args {
+						if (a == ssa.Value(lp) || unspill(a) == ssa.Value(lp)) && i < len(callee.Params) {
+							hp = callee.Params[i]
+						}
+					}
+					if hp != nil {
+						hs := summarizeProcessWith(callee, want, hp, depth+1)
+						if len(hs.Returns) > 0 {
+							s.Returns = append(s.Returns, hs.Returns...)
+							continue
+						}
+					}
+				}
+			}
 		}
 		lineLeaves := phiLeaves(ret.Results[0])
 		keepLeaves := phiLeaves(ret.Results[1])
